@@ -274,6 +274,8 @@ def main():
             k = len(states)
             for order in (('chrono',) if k == 1 else ('chrono', 'reverse')):
                 for micro in ('zero', 'nonzero', 'mixed', 'same-second'):
+                    if t == 'quick' and k == 2 and micro in ('zero', 'nonzero') and kind == 'enc':
+                        continue
                     if t == 'quick' and k == 3 and (micro in ('nonzero', 'same-second') or kind == 'enc' and order == 'reverse'):
                         continue
                     listing = (k <= 2 and micro in ('mixed', 'same-second')) if t == 'quick' else (k <= 2 or micro in ('mixed', 'same-second'))
